@@ -213,3 +213,46 @@ def run(prog):
                      "release_coord no longer turns the second and further custom states of the released coordinate into postponed "
                      "releases (State::SeqCustomActive): State::release reports them all through CustomEvent::update, which keeps one")
     return res
+
+
+def rule_fold_acc(prog):
+    """R-FOLD-ACC (C01): the release handler's fold never throws its accumulator away.
+
+    handle_keystate_changes walks the custom actions of a released key with `fold(None, |pbtn, ac| match ac { .. })`; the
+    accumulator is the mouse button that has to be un-clicked at the end. Every arm that does not concern a button must
+    hand `pbtn` on. An arm that yields `None` forgets the button found by an earlier action of the same key:
+    `(multi mlft (on-release tap-vkey v))` then clicks the button and never releases it.
+
+    Rule: in every closure passed to `Iterator::fold` in the state-machine crate whose accumulator is an Option, no
+    assignment to the return place builds a fresh `None`."""
+    res = RuleResult("R-FOLD-ACC", "fold closures with an Option accumulator never replace it by a fresh None", floor=1)
+    from rules.r_cancel import closure_arg
+    for f in sorted(prog.fns.values(), key=lambda x: x.norm):
+        if f.crate != "kanata_state_machine" or f.derive:
+            continue
+        for bi, t in f.calls():
+            if (callee_name(t) or "").split("::")[-1] != "fold" or len(t["args"]) < 3:
+                continue
+            c = closure_arg(prog, f, t["args"][2])
+            if c is None or not (c.local_ty(0) or "").startswith("core::option::Option<"):
+                continue
+            res.fn(c)
+            fresh = []
+            n_ret = 0
+            for b, si, st in c.all_rvalues():
+                if proj(st["p"]) or st["p"]["l"] != 0:
+                    continue
+                n_ret += 1
+                rv = st["rv"]
+                if rv["k"] == "agg" and rv.get("adt") == "core::option::Option" and rv.get("v") == "None":
+                    fresh.append(c.line_of(b, si))
+            key = "%s/fold" % f.norm.split("::{closure")[0].split("::")[-1]
+            ok = not fresh
+            res.inst(key, where="%s:%s" % (f.file, t.get("ln")), results=n_ret, ok=ok)
+            res.oblige(ok)
+            if not ok:
+                res.viol(key, "%s:%s" % (c.file, fresh[0]),
+                         "an arm of the fold over the custom actions of a released key yields a fresh `None` instead of handing the accumulator "
+                         "on (line %s): the mouse button found by an earlier action of the same key is forgotten and never un-clicked - "
+                         "`(multi mlft (on-release tap-vkey v))` leaves the left button down for ever" % fresh[0])
+    return res
